@@ -8,7 +8,7 @@ V = os.path.dirname(os.path.dirname(os.path.abspath(__file__)))
 sys.path.insert(0, V); sys.dont_write_bytecode = True
 
 FILE_PROPS = {
-    'openfilter/filter_runtime/zeromq.py': ['C01', 'C02', 'C03', 'C04', 'C05', 'C06', 'C07', 'C09', 'C12'],
+    'openfilter/filter_runtime/zeromq.py': ['C01', 'C02', 'C03', 'C04', 'C05', 'C06', 'C07', 'C09', 'C12', 'C08'],
     'openfilter/filter_runtime/mq.py': ['C01', 'C02', 'C03', 'C08', 'C09'],
     'openfilter/filter_runtime/filter.py': ['C03', 'C08', 'C12', 'C15', 'C18'],
     'openfilter/filter_runtime/frame.py': ['C09', 'C10'],
